@@ -27,7 +27,10 @@ def squash_choice(expr: Expression, _rules: Mapping[str, Rule]) -> Expression:
         return expr
 
     exprs = expr.expressions
-    return squash(exprs, OptimizedChoice()) or expr
+    squashed = squash(exprs, OptimizedChoice())
+    if squashed and order_is_preserved(squashed.choices):
+        return squashed
+    return expr
 
 
 def squash(
@@ -55,3 +58,69 @@ def squash(
             return None
 
     return new_expr
+
+
+def _ascii_fold(value: str) -> str:
+    return "".join(ch.lower() if ch.isascii() else ch for ch in value)
+
+
+def _is_multi(choice: ChoiceChoice) -> bool:
+    return isinstance(choice, ChoiceLiteral) and len(choice.value) != 1
+
+
+def _group(choice: ChoiceChoice) -> int:
+    """The position of `choice`'s group in `build_optimized_pattern`'s output."""
+    if isinstance(choice, ChoiceLiteral) and len(choice.value) != 1:
+        return 0 if choice.case == ChoiceCase.SENSITIVE else 1
+    if isinstance(choice, UnicodePropertyRule):
+        return 2
+    return 3
+
+
+def _accepts(choice: ChoiceChoice, ch: str) -> bool:
+    """True if the one-character alternative `choice` matches `ch`."""
+    if isinstance(choice, ChoiceLiteral):
+        if choice.case == ChoiceCase.INSENSITIVE:
+            return _ascii_fold(choice.value) == _ascii_fold(ch)
+        return choice.value == ch
+    if isinstance(choice, ChoiceRange):
+        low, high = sorted((choice.start, choice.end))
+        return low <= ch <= high
+    return choice.expression.parse_char(ch)  # UnicodePropertyRule
+
+
+def _may_both_match(first: ChoiceChoice, second: ChoiceChoice) -> bool:
+    """True if some input is matched by both alternatives, with different lengths."""
+    if _is_multi(first) and _is_multi(second):
+        assert isinstance(first, ChoiceLiteral)
+        assert isinstance(second, ChoiceLiteral)
+        a, b = _ascii_fold(first.value), _ascii_fold(second.value)
+        return len(a) != len(b) and (a.startswith(b) or b.startswith(a))
+
+    one, multi = (first, second) if _is_multi(second) else (second, first)
+    assert isinstance(multi, ChoiceLiteral)
+    head = multi.value[0]
+    heads = {head}
+    if multi.case == ChoiceCase.INSENSITIVE and head.isascii():
+        heads.update((head.lower(), head.upper()))
+    return any(_accepts(one, ch) for ch in heads)
+
+
+def order_is_preserved(choices: list[ChoiceChoice]) -> bool:
+    """True if the regex built from `choices` picks the same alternative as the choice.
+
+    `build_optimized_pattern` groups alternatives (multi-character literals first,
+    then Unicode properties, then one character class), which moves some of them
+    in front of alternatives that were written before them. That is only sound if
+    no input is matched by both with different lengths, as in `"a" | "ab"`.
+    """
+    if any(isinstance(c, ChoiceLiteral) and not c.value for c in choices):
+        return False
+
+    for i, earlier in enumerate(choices):
+        for later in choices[i + 1 :]:
+            if not _is_multi(earlier) and not _is_multi(later):
+                continue  # both match exactly one character
+            if _group(later) < _group(earlier) and _may_both_match(earlier, later):
+                return False
+    return True
